@@ -8,6 +8,11 @@ HOOK_COMMITS = subprocess.run(
 
 # property -> (level, technique, level text, level note, design ref)
 CLAIMED = {
+ "C18": ("exploration",
+         "differential monitor: QueryFilter (input level) and the real ingester -> query_stream / query_stream_filtered pipeline (frozen merge instant via the interposed clock) vs DataFusion evaluating the same WHERE on the same flushed batch, row identity by unique ids; TopicBroadcastChannel / FilteredReceiver vs reference topic semantics",
+         "Held on every case explored: WHERE clauses of the supported family (=, <>, <, <=, >, >= in either operand order, AND, OR, parentheses to depth 2; string / int / float / signed literals, int literal on float column and vice versa) x random batches (Int64 and Timestamp(ns) time column, nullable value and label columns, rows just before / at / after the merge instant); end to end: delivered rows per flushed batch, in flush order, once, on both receiver kinds; 40k random topic-filter trees (All / Shard / Tenant / Metrics / nested And / Or incl. empty lists) x batch metadata through the real channel.",
+         "DataFusion 44 is the reference for predicate semantics; the subscriber keeps up (no lag), as the property assumes; the WebSocket transport is not driven.",
+         "DESIGN.md section 3 C18"),
  "C16": ("exploration",
          "real-thread stress of CachedObjectStore/TieredCache with tiny tiers over write-once objects whose content is a PRF of the key; byte-for-byte oracle",
          "Held on every read explored: 6 tier configurations (L1 100 B..64 KB, L2 none / 1 MB / 16 MB on a real foyer disk tier), object sizes 0 B..200 KB (larger than a tier), 1-16 concurrent readers issuing whole / ranged / conditional reads on hot and cold keys while new objects keep being written; returned bytes must equal PRF(key)[range]; reads of never-written keys must fail.",
